@@ -46,7 +46,7 @@ Definition check_node (c : node_case) : N :=
   let es := esize32 params in let sf := shrinkf32 params in
   let model := run_full courses parts es sf rooms nd in
   let agree := res_agree model ires in
-  let cls := validb courses parts && node_wfb courses nd in
+  let cls := Spec.validb courses parts && node_wfb courses nd in
   let '(hard, score_ok, housed, hardc) :=
     match ires with
     | PFeas a s =>
